@@ -156,21 +156,52 @@ def proof_obligations(prop):
 
 # ------------------------------------------------------------------ running cases
 
+REAL_LIMIT = 16777215
+PROD_STATS = build.PROD_STATS      # one shared counter (this file is loaded both as __main__ and as `check`)
+
+
+def run_harness(mode, items, cf, impl, aux, release=False, jobs=16):
+    """items: list of (case text, packet limit).  Cases at the real packet limit run on the harness built against
+    the PRODUCTION msql-srv (cargo feature verif-hooks off: the code a user gets); only cases with a small limit
+    need the build with the hook.  Outputs are concatenated into `impl` / `aux`; `cf` receives all cases."""
+    with open(cf, "w") as f:
+        for t, _ in items:
+            f.write(t)
+    for p in (impl, aux):
+        if os.path.exists(p):
+            os.remove(p)
+    parts = (("prod", [t for t, l in items if l == REAL_LIMIT]), ("hooked", [t for t, l in items if l != REAL_LIMIT]))
+    worst = 0
+    for kind, texts in parts:
+        if not texts:
+            continue
+        PROD_STATS[kind] += len(texts)
+        pcf, pimpl, paux = cf + "." + kind, impl + "." + kind, aux + "." + kind
+        with open(pcf, "w") as f:
+            f.write("".join(texts))
+        rc, out = build.sh([build.harness_bin(release, prod=(kind == "prod")), mode, pcf, pimpl, paux, "--jobs", str(jobs)], timeout=3000)
+        if rc not in (0, 3):
+            raise RuntimeError("harness (%s build) failed rc=%d: %s" % (kind, rc, out[-2000:]))
+        worst = max(worst, rc)
+        for src, dst in ((pimpl, impl), (paux, aux)):
+            if os.path.exists(src):
+                with open(dst, "ab") as g:
+                    g.write(open(src, "rb").read())
+    for p in (impl, aux):
+        if not os.path.exists(p):
+            open(p, "w").close()
+    return worst
+
+
 def run_conn(cases, tag, release=False, jobs=16):
     """cases: list of mysqlproto.Case.  Returns (impl_obs, model_obs) as dict id -> [lines]"""
     d = os.path.join(BUILD, "run_" + tag)
     os.makedirs(d, exist_ok=True)
     cf = os.path.join(d, "cases.txt")
-    with open(cf, "w") as f:
-        for c in cases:
-            f.write(c.render())
     impl = os.path.join(d, "impl.obs"); aux = os.path.join(d, "aux.txt"); model = os.path.join(d, "model.obs")
-    for p in (impl, aux, model):
-        if os.path.exists(p):
-            os.remove(p)
-    rc, out = build.sh([build.harness_bin(release), "conn", cf, impl, aux, "--jobs", str(jobs)], timeout=3000)
-    if rc not in (0, 3):
-        raise RuntimeError("harness failed rc=%d: %s" % (rc, out[-2000:]))
+    if os.path.exists(model):
+        os.remove(model)
+    run_harness("conn", [(c.render(), c.lim) for c in cases], cf, impl, aux, release=release, jobs=jobs)
     io = split_obs(impl)
     # effective read scripts (only when the transport had to split a chunk)
     eff = {cid: [l for l in ls if l.startswith("eff|")] for cid, ls in io.items()}
@@ -229,9 +260,11 @@ def run_val(lines, tag, release=False, jobs=16):
     with open(cf, "w") as f:
         f.write("\n".join(lines) + "\n")
     impl = os.path.join(d, "val_impl.txt"); aux = os.path.join(d, "val_aux.txt"); model = os.path.join(d, "val_model.txt")
-    rc, out = build.sh([build.harness_bin(release), "val", cf, impl, aux, "--jobs", str(jobs)], timeout=3000)
+    # value cases call the encoders directly (no packet limit involved): production build
+    rc, out = build.sh([build.harness_bin(release, prod=True), "val", cf, impl, aux, "--jobs", str(jobs)], timeout=3000)
     if rc != 0:
         raise RuntimeError("harness val failed: " + out[-2000:])
+    PROD_STATS["prod"] += len(lines)
     rc, out = build.sh([build.driver_bin(), "val", cf, aux, model], timeout=3000)
     if rc != 0:
         raise RuntimeError("driver val failed: " + out[-2000:])
@@ -245,13 +278,11 @@ def run_tls(case_texts, tag, jobs=8):
     d = os.path.join(BUILD, "run_" + tag)
     os.makedirs(d, exist_ok=True)
     cf = os.path.join(d, "tls_cases.txt")
-    with open(cf, "w") as f:
-        for _, t in case_texts:
-            f.write(t)
     impl = os.path.join(d, "tls_impl.obs"); aux = os.path.join(d, "tls_aux.txt"); model = os.path.join(d, "tls_model.obs")
-    rc, out = build.sh([build.harness_bin(), "tls", cf, impl, aux, "--jobs", str(jobs)], timeout=3000)
-    if rc not in (0, 3):
-        raise RuntimeError("harness tls failed rc=%d: %s" % (rc, out[-2000:]))
+    def lim_of(t):
+        m = re.search(r"lim=(\d+)", t)
+        return int(m.group(1)) if m else REAL_LIMIT
+    run_harness("tls", [(t, lim_of(t)) for _, t in case_texts], cf, impl, aux, jobs=jobs)
     rc, out = build.sh([build.driver_bin(), "tls", cf, aux, model], timeout=3000)
     if rc != 0:
         raise RuntimeError("driver tls failed rc=%d: %s" % (rc, out[-2000:]))
@@ -304,6 +335,9 @@ def main():
     if not b["harness"][0]:
         say("harness build failed:\n" + b["harness"][1])
         violations.append(("harness does not build against the current tree: " + b["harness"][1][-600:], None, False))
+    elif not b.get("harness_prod", (True, ""))[0]:
+        say("harness (production build) failed:\n" + b["harness_prod"][1])
+        violations.append(("harness does not build against the production (hook-free) build of the current tree: " + b["harness_prod"][1][-600:], None, False))
     if not b.get("driver", (False, ""))[0]:
         violations.append(("model driver does not build: " + b["driver"][1][-600:], None, False))
 
@@ -356,6 +390,7 @@ def main():
             "rule": getattr(mod, "RULE", ""), "samples": corr["samples"][:6],
             "input_distribution": corr["hist"], "correspondence_mismatches": corr["mismatches"],
             "write_granularity_only_differences": corr.get("granularity_only", 0),
+            "cases_run_on_production_build": PROD_STATS["prod"], "cases_run_on_hooked_build": PROD_STATS["hooked"],
             "oracle_failures": corr["oracle_failures"], "exhaustive": bool(corr.get("exhaustive", False)),
             "known_findings_reproduced": known_hits,
             "build_seconds": b.get("build_s"),
@@ -548,13 +583,8 @@ def _impl_only(self, cases, oracle, nontrivial=lambda c, o: True, classify=None,
     d = os.path.join(BUILD, "run_" + tag)
     os.makedirs(d, exist_ok=True)
     cf = os.path.join(d, "cases.txt")
-    with open(cf, "w") as f:
-        for c in cases:
-            f.write(c.render())
     impl = os.path.join(d, "impl.obs"); aux = os.path.join(d, "aux.txt")
-    rc, out = build.sh([build.harness_bin(release), "conn", cf, impl, aux, "--jobs", "4"], timeout=3000)
-    if rc not in (0, 3):
-        raise RuntimeError("harness failed rc=%d: %s" % (rc, out[-2000:]))
+    run_harness("conn", [(c.render(), c.lim) for c in cases], cf, impl, aux, release=release, jobs=4)
     io = split_obs(impl)
     corr = self.corr
     for c in cases:
